@@ -40,7 +40,7 @@ def key_passes(name, white, black):
 
 
 def gen_case(rnd, cid, seed):
-    cfg = {"scan_key_number": rnd.choice([1, 2, 3, 5, 100]), "big_threshold": rnd.choice([40, 120, 10 ** 9]), "key_exists": rnd.choice(["none", "rewrite"]),
+    cfg = {"scan_key_number": rnd.choice([1, 2, 3, 5, 100]), "big_threshold": rnd.choice([40, 120, 10 ** 9]), "key_exists": rnd.choice(["none", "rewrite", "rewrite", "ignore"]),
            "tdb": rnd.choice([-1, -1, 0, 3]), "fdb_white": [], "fdb_black": [], "fkey_white": [], "fkey_black": [], "key_file": rnd.random() < 0.2,
            "target_version": rnd.choice(["5.0.7", "4.0.11", "3.2.12"])}
     ndb = 1 if cfg["key_file"] else rnd.choice([1, 2, 2, 3])
@@ -99,7 +99,7 @@ def gen_case(rnd, cid, seed):
         nlines = sum(len(pg) for d in dbl for pg in d["pages"])
         cfg["blank_at"] = sorted(rnd.sample(range(nlines), min(nlines, rnd.choice([1, 1, 2]))))
     pre = []
-    if cfg["key_exists"] == "rewrite":
+    if cfg["key_exists"] in ("rewrite", "ignore"):
         for k in keys:
             if rnd.random() < 0.3:
                 pre.append({"db": k["db"] if cfg["tdb"] == -1 else cfg["tdb"], "name": k["name"]})
@@ -159,6 +159,13 @@ def run(tier, seed, replay=None):
             allcases[1 % nproc].insert(0, {"id": 999200, "sources": 3, "seed": seed, "pre": [], "keys": ks, "dbs": dl,
                                           "cfg": {"scan_key_number": 2, "big_threshold": 10 ** 9, "key_exists": "none", "tdb": -1, "fdb_white": [], "fdb_black": [], "fkey_white": [],
                                                   "fkey_black": [], "key_file": False, "target_version": "5.0.7"}})
+        # a key file with empty lines in the middle (names of keys that do not exist): every key after them is still copied
+        if not replay:
+            ks = [{"id": i + 1, "db": 0, "name": "bl%d" % i, "kind": ["string", "list", "hash"][i % 3], "n": 2, "elem": 6, "ttl": 0, "vanish": "never", "scanned": True, "passes": True}
+                  for i in range(7)]
+            allcases[4 % nproc].insert(0, {"id": 999310, "seed": seed, "pre": [], "keys": ks, "dbs": [{"db": 0, "pages": [list(range(1, 8))]}],
+                                          "cfg": {"scan_key_number": 3, "big_threshold": 10 ** 9, "key_exists": "none", "tdb": -1, "fdb_white": [], "fdb_black": [], "fkey_white": [],
+                                                  "fkey_black": [], "key_file": True, "blank_at": [2, 5], "target_version": "5.0.7"}})
         # a key file larger than the line reader's buffer (4 KiB): 600 names of 16 bytes
         if not replay:
             ks = [{"id": i + 1, "db": 0, "name": "kf%04d-%s" % (i, "abcdefgh"[i % 8] * 8), "kind": "string", "n": 1, "elem": 6, "ttl": 0, "vanish": "never", "scanned": True, "passes": True}
